@@ -612,6 +612,15 @@ func run(c *vf.Ctx) {
 	}
 	nRandom := len(walks)
 	walks = append(walks, restart("B"), restart("A"))
+	// "any universe": one both-up / peer / stop walk per spelling of the universe name, with and without a secret
+	uniNames := []string{"verse1", "Lab", "UPPER case", "\u00fcn\u00efverse-\u4e16\u754c", strings.Repeat("x", 64)}
+	nBeforeUni := len(walks)
+	for range uniNames {
+		for k := 0; k < 2; k++ {
+			walks = append(walks, []act{{Name: "construct", Inst: "B", API: false}, {Name: "construct", Inst: "A", API: false}, {Name: "startmodule", Inst: "B"}, {Name: "startmodule", Inst: "A"},
+				{Name: "peer", A: "A", B: "B"}, {Name: "stoprequest", Inst: "A"}, {Name: "stoprequest", Inst: "B"}})
+		}
+	}
 	c.Logf("M done; %d walks", len(walks))
 
 	runtime.GC()
@@ -627,10 +636,14 @@ func run(c *vf.Ctx) {
 	for i, w := range walks {
 		scen[i] = &scenario{c: c, rng: rand.New(rand.NewSource(c.Seed*1000 + int64(i))), dir: stateDir, insts: map[string]*live{}}
 		if i%2 == 1 {
-			scen[i].universe = fmt.Sprintf("verse%d", i%3)
-			scen[i].secret = i%4 == 1
+			scen[i].universe = uniNames[(i/2)%len(uniNames)]
+			scen[i].secret = (i/2/len(uniNames))%2 == 0
 		}
-		if i%3 != 0 || i >= nRandom {
+		if i >= nBeforeUni {
+			scen[i].universe = uniNames[(i-nBeforeUni)/2]
+			scen[i].secret = (i-nBeforeUni)%2 == 0
+		}
+		if (i%3 != 0 || i >= nRandom) && i < nBeforeUni {
 			scen[i].fixed = true
 			scen[i].fixedPorts = map[string][]int{"A": {freePort()}, "B": {freePort(), freePort()}}
 		}
